@@ -52,14 +52,8 @@ func (w *w1) setupEtcd() {
 		for i := len(w.ledger) - 1; i >= 0; i-- {
 			rec := w.ledger[i]
 			if rec.task != "" && (task == rec.task || strings.HasPrefix(task, rec.task+"/")) {
-				key := fmt.Sprintf("%s/%s/%d", metadata.PartitionLeasePrefix(), rec.topic, rec.part)
-				owner, leaseID, ok := w.etcd.KeyInfo(key)
-				broker := strings.TrimPrefix(strings.SplitN(rec.inc, "#", 2)[0], "b")
 				rec.appendSeen = true
-				rec.heldAtAppend = ok && owner == broker && w.etcd.LeaseAlive(leaseID) && w.etcd.LeaseOwner(leaseID) == rec.inc
-				if !rec.heldAtAppend {
-					rec.leaseNote = fmt.Sprintf("lease key %s: exists=%v owner=%q lease-alive=%v lease-client=%q", key, ok, owner, w.etcd.LeaseAlive(leaseID), w.etcd.LeaseOwner(leaseID))
-				}
+				rec.heldAtAppend, rec.leaseNote = w.leaseHeldNow(rec)
 				return
 			}
 		}
@@ -78,7 +72,23 @@ func (w *w1) etcdStoreFor(n *bnode) *metadata.EtcdStore {
 	return st
 }
 
+// leaseHeldNow: does the etcd server, at this scheduler step, show rec's broker incarnation as the
+// live owner of rec's partition?
+func (w *w1) leaseHeldNow(rec *produceRec) (bool, string) {
+	key := fmt.Sprintf("%s/%s/%d", metadata.PartitionLeasePrefix(), rec.topic, rec.part)
+	owner, leaseID, ok := w.etcd.KeyInfo(key)
+	broker := strings.TrimPrefix(strings.SplitN(rec.inc, "#", 2)[0], "b")
+	held := ok && owner == broker && w.etcd.LeaseAlive(leaseID) && w.etcd.LeaseOwner(leaseID) == rec.inc
+	if held {
+		return true, ""
+	}
+	return false, fmt.Sprintf("lease key %s: exists=%v owner=%q lease-alive=%v lease-client=%q", key, ok, owner, w.etcd.LeaseAlive(leaseID), w.etcd.LeaseOwner(leaseID))
+}
+
 func (w *w1) judgeLease(rec *produceRec) {
+	if w.etcdMode() && w.etcd != nil {
+		rec.heldAtAck, _ = w.leaseHeldNow(rec)
+	}
 	if w.prop != "C19" || !w.etcdMode() {
 		return
 	}
@@ -117,13 +127,18 @@ func (w *w1) judgeSegmentOverwrites() {
 	}
 	seen := map[string][]span{}
 	for _, rec := range w.ledger {
-		if rec.code != 0 || rec.base < 0 || rec.nrec <= 0 || !rec.appendSeen {
+		if !rec.answered || rec.code != 0 || rec.base < 0 || rec.nrec <= 0 || !rec.appendSeen {
 			continue
 		}
 		k := fmt.Sprintf("%s/%d", rec.topic, rec.part)
 		lo, hi := rec.base, rec.base+int64(rec.nrec)-1
 		for _, s := range seen[k] {
 			if s.lo <= hi && lo <= s.hi && strings.SplitN(s.rec.inc, "#", 2)[0] != strings.SplitN(rec.inc, "#", 2)[0] {
+				if s.rec.heldAtAppend && rec.heldAtAppend {
+					// both held the lease when they appended: offset reuse across a hand-over is C02's clause
+					w.sim.Probe("foreign:C02/overlap")
+					continue
+				}
 				w.sim.FailSoft("C19", "two-brokers-acked-one-offset", "brokers %s and %s both acknowledged records at offsets [%d,%d]∩[%d,%d] of %s: both appended as owner", s.rec.inc, rec.inc, s.lo, s.hi, lo, hi, k)
 				return
 			}
@@ -136,7 +151,8 @@ func w1GenLease(r *rand.Rand, c *simrt.Case, nclients, maxOps int) {
 	cfg := c.Config
 	cfg["etcd"] = 1
 	cfg["brokers"] = int64(2 + r.IntN(2))
-	cfg["lease_ttl_s"] = pick[int64](r, 2, 3, 10)
+	// the brokers' lease TTL is what newHandler configures (the default, 10 s): sleeps, dropped
+	// keep-alive runs (one every TTL/3) and stalls below are sized around it
 	cfg["partitions"] = 2
 	cfg["etcd_lat_us"] = pick[int64](r, 100, 400, 3000)
 	cfg["max_virtual_s"] = 900
@@ -149,22 +165,27 @@ func w1GenLease(r *rand.Rand, c *simrt.Case, nclients, maxOps int) {
 				// E selects the broker the request goes to (any broker, owner or not)
 				c.Program = append(c.Program, simrt.Op{Actor: cl, Kind: "produce", B: int64(r.IntN(2)), C: int64(1 + r.IntN(3)), D: pick[int64](r, 1, -1), S: "", A: 0})
 			case x < 8:
-				c.Program = append(c.Program, simrt.Op{Actor: cl, Kind: "sleep", A: pick[int64](r, 1, 100, 1500, 4000)})
+				c.Program = append(c.Program, simrt.Op{Actor: cl, Kind: "sleep", A: pick[int64](r, 1, 100, 1500, 3500, 7000)})
 			case x < 9:
 				// (a server-side "expire now" is not used here: a real etcd never ends a lease before a
 				// full TTL without renewals, and only then is the client's own deadline a usable bound)
-				c.Program = append(c.Program, simrt.Op{Actor: cl, Kind: "sleep", A: pick[int64](r, 2500, 4000, 11000)})
+				c.Program = append(c.Program, simrt.Op{Actor: cl, Kind: "sleep", A: pick[int64](r, 4000, 11000, 14000, 25000)})
 			default:
 				c.Program = append(c.Program, simrt.Op{Actor: cl, Kind: "crash", A: int64(r.IntN(3))})
 			}
 		}
 	}
-	for i := 0; i < r.IntN(3); i++ {
-		switch r.IntN(4) {
+	nb := int(cfg["brokers"])
+	for i := 0; i < r.IntN(4); i++ {
+		switch r.IntN(5) {
+		case 4:
+			// one broker's keep-alives are lost for longer than the TTL (one goes out every TTL/3) while the
+			// others stay connected: its partitions move to whoever is asked next
+			c.Faults = append(c.Faults, simrt.Fault{Kind: "etcd.drop_keepalive.unavail", Op: "etcd.lease.keepalive", Key: fmt.Sprintf("@b%d", r.IntN(nb)), Nth: r.IntN(5), Count: 3 + r.IntN(4)})
 		case 0:
-			c.Faults = append(c.Faults, simrt.Fault{Kind: "s3.slow", Op: "s3.", Nth: r.IntN(8), Arg: int64(500+r.IntN(6000)) * 1e6})
+			c.Faults = append(c.Faults, simrt.Fault{Kind: "s3.slow", Op: "s3.", Nth: r.IntN(8), Arg: int64(500+r.IntN(16000)) * 1e6})
 		case 1:
-			c.Faults = append(c.Faults, simrt.Fault{Kind: "etcd.drop_keepalive.unavail", Op: "etcd.lease.keepalive", Nth: r.IntN(4), Count: 2 + r.IntN(8)})
+			c.Faults = append(c.Faults, simrt.Fault{Kind: "etcd.drop_keepalive.unavail", Op: "etcd.lease.keepalive", Nth: r.IntN(4), Count: 3 + r.IntN(9)})
 		case 2:
 			c.Faults = append(c.Faults, simrt.Fault{Kind: "etcd.unavail", Op: "etcd.txn", Nth: r.IntN(6)})
 		case 3:
